@@ -55,14 +55,16 @@ Fixpoint loop_model (o : oracle) (r : rstate) (npend : nat) (its : list iter) : 
 
 (* ---------- the terminal side: the property predicate ---------- *)
 (* a pending chunk: its commands and (ghost) the surface the application drew for the frame it
-   contains, if it contains one *)
-Definition chunk := (list cmd * option (grid cell))%type.
+   contains, if it contains one, with the placements that may be left over besides that surface's
+   (E: what stale drops left on the terminal before the frame was issued; [] = none) *)
+Definition chunk := (list cmd * option (grid cell * list placement))%type.
 
-(* the terminal executes a chunk; afterwards it must display the surface drawn for that frame *)
+(* the terminal executes a chunk; afterwards it must display the surface drawn for that frame: same
+   cells, no error, its placements and none besides them and E ([display_upto]; E = []: same_display) *)
 Definition deliver (o : oracle) (h w : nat) (scr : screen) (c : chunk) : screen * bool :=
   let scr' := exec_list o scr (fst c) in
   (scr', negb (err scr')
-         && match snd c with Some s => same_display scr' (show o h w s) | None => true end).
+         && match snd c with Some (s, E) => display_upto E scr' (show o h w s) | None => true end).
 
 Fixpoint deliver_all (o : oracle) (h w : nat) (scr : screen) (q : list chunk) : screen * bool :=
   match q with
@@ -79,13 +81,19 @@ Definition is_img_at (s : grid cell) (pl : placement) : bool :=
   end.
 
 (* class DroppedImageErase: when frames are dropped, the terminal (once it has executed what
-   survives) shows an image that the last issued frame no longer has: its ImageErase was in a
-   dropped chunk, and clear() only erases the images of the back buffer *)
-Definition stale_after_drop (o : oracle) (h w : nat) (scr : screen) (kept : list chunk) (last : grid cell) : bool :=
-  negb (forallb (is_img_at (gmap (resolve o) last)) (places (fst (deliver_all o h w scr kept)))).
+   survives) shows images that the last issued frame no longer has: their ImageErase was in a
+   dropped chunk, and clear() only erases the images of the back buffer.  These placements: *)
+Definition stale_places (o : oracle) (h w : nat) (scr : screen) (kept : list chunk) (last : grid cell)
+  : list placement :=
+  filter (fun p => negb (is_img_at (gmap (resolve o) last) p)) (places (fst (deliver_all o h w scr kept))).
 
-(* returns (every delivered frame was displayed right, some drop left a stale image) *)
-Fixpoint loop_spec (o : oracle) (h w : nat) (scr : screen) (q : list chunk) (last : grid cell)
+(* returns (every delivered frame was displayed right, some drop left a stale image).
+   Every delivery is judged, also after a stale drop: from the forced repaint that follows the drop
+   on, the stale placements of THAT drop are the only ones tolerated besides the drawn ones (cells,
+   errors and the drawn placements are judged as ever).  [strict]: tolerate nothing (the plain
+   statement of the property; fails exactly inside the class). *)
+Fixpoint loop_spec (o : oracle) (h w : nat) (strict : bool) (scr : screen) (q : list chunk)
+         (E : list placement) (last : grid cell)
          (its : list iter) (out : list (bool * list cmd)) : bool * bool :=
   match its, out with
   | [], [] => (snd (deliver_all o h w scr q), false)      (* finally everything pending is delivered *)
@@ -94,15 +102,16 @@ Fixpoint loop_spec (o : oracle) (h w : nat) (scr : screen) (q : list chunk) (las
       let '(scr1, ok1) := deliver_all o h w scr (firstn n q) in
       let q1 := skipn n q in
       let q2 := if dropped then firstn (it_keep it) q1 else q1 in
-      let st1 := if dropped then stale_after_drop o h w scr1 q2 last else false in
+      let sp := if dropped then stale_places o h w scr1 q2 last else [] in
+      let E1 := if dropped then (if strict then [] else sp) else E in
       let last1 := if dropped then gmake h w cell_default else last in
       let '(ok, st) :=
         match it_action it with
         | AWaitNoFrame =>
-            loop_spec o h w scr1 (if is_nil cs then q2 else q2 ++ [(cs, None)]) last1 its' out'
+            loop_spec o h w strict scr1 (if is_nil cs then q2 else q2 ++ [(cs, None)]) E1 last1 its' out'
         | AWait =>
-            loop_spec o h w scr1 (q2 ++ [(cs, Some (it_draw it))]) (it_draw it) its' out'
+            loop_spec o h w strict scr1 (q2 ++ [(cs, Some (it_draw it, E1))]) E1 (it_draw it) its' out'
         end in
-      (ok1 && ok, st1 || st)
+      (ok1 && ok, negb (is_nil sp) || st)
   | _, _ => (false, false)
   end.
